@@ -20,6 +20,7 @@
 // equation id = the value of the single <cn> of its AST; an EXTERNAL equation (no AST) is "x<computed variables>".
 // Only public API is used.
 #include <algorithm>
+#include <cstdlib>
 #include <map>
 #include <sstream>
 
@@ -79,8 +80,18 @@ static std::string eid(const libcellml::AnalyserEquationPtr &e)
         }
         return r;
     }
+    // the <cn> that carries the id: an integer in 1001..99999 (scaling between compatible units adds <cn>s such as
+    // 0.001 or 1000 to the AST)
+    std::vector<std::string> all;
     std::vector<std::string> cns;
-    findCn(e->ast(), cns);
+    findCn(e->ast(), all);
+    for (const auto &c : all) {
+        char *end = nullptr;
+        double v = std::strtod(c.c_str(), &end);
+        if ((end != c.c_str()) && (v >= 1001.0) && (v <= 99999.0) && (v == double(long(v)))) {
+            cns.push_back(std::to_string(long(v)));
+        }
+    }
     if (cns.size() != 1) {
         return "cn" + std::to_string(cns.size());
     }
